@@ -444,10 +444,12 @@ def build(plan, kind, rng, xclass):
         P = odl.LinCombOperator(space, par['a'], par['b'])
     elif mid == 'multiply':
         bufs['sig'] = sigvals
-        P = odl.MultiplyOperator(make_elem(space, sigvals))
+        elems['sig'] = make_elem(space, sigvals)
+        P = odl.MultiplyOperator(elems['sig'])
     elif mid == 'constant':
         bufs['g'] = gvals
-        P = odl.ConstantOperator(make_elem(space, gvals))
+        elems['g'] = make_elem(space, gvals)
+        P = odl.ConstantOperator(elems['g'])
     elif mid == 'zero':
         P = odl.ZeroOperator(space)
     elif mid == 'power':
@@ -476,6 +478,11 @@ def build(plan, kind, rng, xclass):
             x = np.abs(x) + 0.125          # the gradient raises for non-positive entries
         if mid == 'gradKLCC':
             x = np.where(x == 1.0, 0.5, x)
+            if prior is not None and np.any(gvals == 1.0):   # prior / (1 - prior) must stay finite
+                gvals = np.where(gvals == 1.0, 0.5, gvals)
+                bufs['g'] = gvals
+                prior = make_elem(space, gvals)
+                elems['g'] = prior
         S = odl.solvers
         fun = S.KullbackLeibler(space, prior=prior) if mid in ('gradKL', 'gradKLCC') else \
             S.KullbackLeiblerCrossEntropy(space, prior=prior)
@@ -885,8 +892,6 @@ ALL_ODL_SITES = {
         'ndarray helper (dft_postprocess_data -> fast_1d_tensor_mult): not modelled in C10',
     ('odl/trafos/fourier.py', 'FourierTransformInverse._call_pyfftw', 'self._postprocess'):
         'ndarray helper (dft_postprocess_data -> fast_1d_tensor_mult): not modelled in C10',
-    ('odl/trafos/fourier.py', 'FourierTransform._postprocess', 'dft_postprocess_data'):
-        'ndarray helper (dft_postprocess_data -> fast_1d_tensor_mult): not modelled in C10',
     ('odl/trafos/util/ft_utils.py', 'dft_preprocess_data', 'fast_1d_tensor_mult'):
         'ndarray helper (`out[:] = ndarr` self-assignment, then `out *= ...`): not modelled in C10',
     ('odl/trafos/util/ft_utils.py', 'dft_postprocess_data', 'fast_1d_tensor_mult'):
@@ -1101,6 +1106,13 @@ def run_prog_case(ctx, c, lines, pending):
                 it = ('ok', flat(y))
     lines.append(model_line(c, True, junk_vals(N)) + ' iters=3')
     pending.append((c, desc, res, it))
+    if plan.mid != 'lincombOp':
+        got = self_alias_check(ctx, key.split(' nonfinite-result')[0],
+                               'aux' if plan.aux else 'prog', c['P'], frames, desc)
+        for nm, arr in got:
+            if nm in SELF_BUF and not plan.aux:
+                SELF_PENDING.append((model_line(c, True, junk_vals(N)) + ' self={}'.format(
+                    SELF_BUF[nm]), c, desc, nm, arr))
 
 
 def aux_branch_hits(ctx, c, st):
@@ -1125,7 +1137,32 @@ def aux_branch_hits(ctx, c, st):
         ctx.hit('aux-branch/absPow/p={}'.format(c['par']['p']))
 
 
+SELF_BUF = {'g': 2, 'sig': 3, 'lo': 4, 'up': 5}
+SELF_PENDING = []
+
+
+def compare_self_alias(ctx):
+    """Model runs with x = out = the data buffer (`self=d`, `run P d d m`) vs the real call
+    P(e, out=e) on the closed-over element (theorem C10.self_alias_safe_repaired)."""
+    todo = list(SELF_PENDING)
+    del SELF_PENDING[:]
+    outs = core.run_driver('C10', [t[0] for t in todo])
+    for (line, c, desc, nm, arr), ans in zip(todo, outs):
+        ctx.hit('self-alias-model/' + nm)
+        if not ans.startswith('ok '):
+            ctx.disagree(dict(desc, self_alias=nm), 'ok', ans[:200], stream='self-alias-model')
+            continue
+        f = dict(t.split('=', 1) for t in ans.split()[1:])
+        mout = parse_bl(f['b%d' % SELF_BUF[nm]])
+        if not same(mout, arr, True if c['plan'].tol else False) and not same(mout, arr, c['plan'].tol):
+            ctx.disagree(dict(desc, self_alias=nm),
+                         '{} after P({}, out={}) = {}'.format(nm, nm, nm, [float(v) for v in arr][:8]),
+                         'model run with x = out = buffer {}: {}'.format(SELF_BUF[nm], mout[:8]),
+                         stream='self-alias-model')
+
+
 def compare_model(ctx, pending, outs):
+    compare_self_alias(ctx)
     for k, (c, desc, res, it) in enumerate(pending):
         plan = c['plan']
         pre = 'aux-' if plan.aux else ''
@@ -1790,6 +1827,68 @@ def rejection_stream(ctx):
                 outcome, flat(x), flat(o)), {'kind': 'rejection', 'name': name})
 
 
+def self_alias_check(ctx, key, label, P, frames, replay_case):
+    """x = out = the VERY OBJECT the operator closes over (translation y, data term g, bounds,
+    prior, element-valued sigma): `P(e, out=e)` must leave in `e` what the non-aliased call on a
+    copy, `P(e.copy())`, returns; every OTHER closed-over element stays bitwise unchanged.
+    The element is restored afterwards (later calls of the stream use the same operator)."""
+    dom = getattr(P, 'domain', None)
+    results = []
+    for nm, e in frames:
+        if not hasattr(e, 'space') or dom is None or e.space != dom:
+            continue
+        saved = flat(e).copy()
+        others = [(n2, e2, flat(e2).copy()) for n2, e2 in frames if e2 is not e and
+                  hasattr(e2, 'space')]
+        try:
+            ref = ('ok', flat(P(e.copy())))
+        except Exception as ex:  # noqa
+            ref = ('err:' + type(ex).__name__, None)
+        if not np.array_equal(flat(e), saved, equal_nan=True):
+            ctx.violation(key + ' self-alias=' + nm, 'P(copy of `{}`) modified `{}` itself'.format(
+                nm, nm), dict(replay_case, self_alias=nm))
+        try:
+            r = P(e, out=e)
+            got = ('ok', flat(e).copy(), r is e)
+        except Exception as ex:  # noqa
+            got = ('err:{}:{}'.format(type(ex).__name__, str(ex)[:80]), None, False)
+        ctx.hit('self-alias/{}/{}'.format(label, nm))
+        ctx.case((label, 'self-alias', nm, key.split(' space=')[0]) if ref[0] == 'ok' and
+                 np.any(ref[1] != 0) else None)
+        problems = []
+        if ref[0] == 'ok':
+            if got[0] != 'ok':
+                problems.append('P(e, out=e) on the closed-over `{}` raises {} while P(copy) works'
+                                .format(nm, got[0]))
+            else:
+                if not got[2]:
+                    problems.append('did not return the out object')
+                if not same(got[1], ref[1], True):
+                    bad = int(np.argmax(~np.isclose(got[1], ref[1], rtol=1e-9, atol=1e-12,
+                                                    equal_nan=True)))
+                    problems.append(
+                        'P(e, out=e) with e the closed-over `{}` (value {}) differs from P(e.copy()) '
+                        'at flat index {}: got {!r}, P(copy) gives {!r}'.format(
+                            nm, [float(v) for v in np.real(saved[:6])], bad, float(np.real(got[1][bad])),
+                            float(np.real(ref[1][bad]))))
+        elif got[0] == 'ok':
+            problems.append('P(copy of `{}`) raises {} but the aliased call succeeds'.format(nm, ref[0]))
+        for n2, e2, before in others:
+            if not np.array_equal(flat(e2), before, equal_nan=True):
+                problems.append('closed-over `{}` modified by the call aliased to `{}`'.format(n2, nm))
+        if problems:
+            ctx.violation(key + ' self-alias=' + nm, '; '.join(problems)[:600],
+                          dict(replay_case, self_alias=nm))
+        if got[0] == 'ok':
+            results.append((nm, got[1]))
+        # restore the closed-over element
+        try:
+            e.assign(make_elem(e.space, saved))
+        except Exception:  # noqa
+            pass
+    return results
+
+
 def run_oracle_stream(ctx, gen, label, only=None, fixed_x=None):
     unavailable = {}
     for key, mk, space, xv, frames, rs in gen:
@@ -1816,6 +1915,9 @@ def run_oracle_stream(ctx, gen, label, only=None, fixed_x=None):
                           {'kind': label, 'key': key, 'rs': rs, 'x': [float(v) for v in xv]})
         elif st == 'ok':
             repeated_alias(ctx, key, P, space, len(xv), rs, label)
+        if st == 'ok':
+            self_alias_check(ctx, key, label, P, frames,
+                             {'kind': label, 'key': key, 'rs': rs, 'x': [float(v) for v in xv]})
     if unavailable:
         ctx.extra.setdefault('not_constructible', {}).update(unavailable)
 
@@ -2091,6 +2193,11 @@ def report_unhit(ctx):
         ['complex/{}/{}'.format(p.mid, p.flags or '-') for p in plans_complex()] + \
         ['expr/' + nm for nm in expr_names()] + ['solver/' + nm for nm in SOLVERS] + \
         ['option/' + nm for nm in OPTION_NAMES] + \
+        ['self-alias/prog/' + nm for nm in ('g', 'sig', 'lo', 'up')] + \
+        ['self-alias-model/' + nm for nm in ('g', 'sig', 'lo', 'up')] + \
+        ['self-alias/aux/g', 'self-alias/wrapper/y', 'self-alias/wrapper/g',
+         'self-alias/wrapper/sigma', 'self-alias/functional/y', 'self-alias/functional/g',
+         'self-alias/expr/vec'] + \
         ['rejection/' + nm for nm, _, _ in rejection_cases()]
     unhit = [b for b in expected if not ctx.branches.get(b)]
     ctx.extra['unhit_model_branches'] = unhit
@@ -2151,6 +2258,12 @@ def search(ctx, broken):
                     if plan.aux and only_inf_to_nan(res):
                         skey += ' nonfinite-result'
                     ctx.violation(skey, '; '.join(problems)[:600], describe(c))
+                if plan.mid != 'lincombOp' and res['oop'][0] == 'ok':
+                    self_alias_check(ctx, '{} {} flags={} space={} xclass={}'.format(
+                        'aux' if plan.aux else 'prox', plan.mid, plan.flags or '-', kind, xclass),
+                        'aux' if plan.aux else 'prog', c['P'],
+                        [(nm, e) for nm, e in c.get('elems', {}).items() if hasattr(e, 'space')],
+                        describe(c))
     try:
         history_stream(ctx, 6)
     except core.DriverBroken:
@@ -2174,6 +2287,10 @@ def replay(ctx, case):
         frames = [(nm, e) for nm, e in c['elems'].items() if hasattr(e, 'space')]
         _, problems = oracle(sub, None, None, c['P'], x_elem, c['space'], plan[0].tol, second,
                              frames)
+        if case.get('self_alias'):
+            self_alias_check(sub, 'replay', 'prog', c['P'], frames, {})
+            hits = [v for v in sub.violations if v['key'].endswith('self-alias=' + case['self_alias'])]
+            return hits[0]['what'] if hits else None
         return '; '.join(problems) if problems else None
     if case.get('kind') == 'cross' and plan and case.get('hseed') is not None:
         cross_instance_sequence(sub, plan[0], case['space'], case['hseed'], None, None)
@@ -2206,5 +2323,8 @@ def replay(ctx, case):
         key = case['key']
         fixed = case['x'] if case['kind'] != 'repeat' else None
         run_oracle_stream(sub, gen, label, only=key, fixed_x=fixed)
+        if case.get('self_alias'):
+            hits = [v for v in sub.violations if v['key'].endswith('self-alias=' + case['self_alias'])]
+            return hits[0]['what'] if hits else None
         return sub.violations[0]['what'] if sub.violations else None
     return None
